@@ -153,10 +153,26 @@ def run(ctx):
             rej.append(dict(event=dict(ev='Hang', g=0), why='Hang', lint='', st=0, seg={}, mode='free'))
         judge(ctx, exe, exe_race, rej, races, lambda k: (lambda r: (r[2], r[3]))(once(k)))
         samples.append(dict(mode='free', gomaxprocs=gmp, ops=s['ops'], program_of_goroutine_1=json.loads(lines[1])['progs'][0][:4]))
+    # (V) hot loops: many goroutines, few objects that differ on a block of 12 lints, one narrow registry handed out cold
+    for (gmp, block, reps) in (((16, 3, 300), (4, 12, 150)) if ctx.quick else ((16, 1, 400), (16, 3, 600), (4, 3, 400), (16, 12, 400), (2, 12, 400))):
+        env = {'VERIF_MODE': 'hot', 'GOMAXPROCS': str(gmp), 'VERIF_HOT_BLOCK': str(block), 'VERIF_HOT_REPS': str(reps)}
+
+        def once_hot(k=0, gmp=gmp, env=env, block=block):
+            d, s = run_mode(ctx, exe, 'hot-%d-%d-%d' % (gmp, block, k), env)
+            rej, lines = validate(ctx, os.path.join(d, 'concurrent.ndjson'), json.loads(open(os.path.join(d, 'concurrent.ndjson')).readline())['names'])
+            return d, s, rej, lines
+        d, s, rej, lines = once_hot()
+        for k in totals:
+            totals[k] += s.get(k, 0)
+        totals['hot_calls'] = totals.get('hot_calls', 0) + s.get('hot_calls', 0)
+        if s['hung'] and not any(r['why'] == 'Hang' for r in rej):
+            rej.append(dict(event=dict(ev='Hang', g=0), why='Hang', lint='', st=0, seg={}, mode='hot'))
+        judge(ctx, exe, exe_race, rej, [], lambda k: (once_hot(k)[2], []))
+        samples.append(dict(mode='hot', gomaxprocs=gmp, lints_per_block=block, repetitions=reps, blocks=s.get('hot_blocks'), calls=s.get('hot_calls')))
     cov = dict(evaluations=totals['ops'], distinct_nontrivial=totals['schedules'] + totals['segments'],
                rule='evaluation = one concurrent operation (Lint*Ex, Names, lookups, listing, Filter) whose reply is compared with the model / the same call made alone; '
-                    'non-trivial = distinct schedules enforced through the gates + distinct free-running program sets (GOMAXPROCS varied)',
-               samples=samples[:4], schedules_exported=nsched, lint_operations=totals['lint_ops'], race_reports=totals['races'],
+                    'non-trivial = distinct schedules enforced through the gates + distinct free-running program sets (GOMAXPROCS varied) + hot-loop blocks (8-16 goroutines x 6-8 objects that differ on a block of 1, 3 or 12 lints x 150-600 repetitions; every differing reply is an event)',
+               samples=samples[:4], schedules_exported=nsched, lint_operations=totals['lint_ops'], race_reports=totals['races'], hot_loop_calls=totals.get('hot_calls', 0),
                trusted_base=['Go race detector', 'runtime.Stack goroutine ids (gated mode)', 'fnv digest of details'])
     rc = vlib.finish(ctx, 'model_checking', cov, ASSUME)
     if rc == 0 and getattr(ctx, 'unreproduced', 0):
